@@ -82,6 +82,8 @@ ASSUME PCFd(Dec(4, 2), NoNs, {"C12-extra-keys-kept"}) = S("bytes")
 ASSUME LoseNullNs(Meaning(Rec("ns.R", <<Field("a", FixedNs("F", "", 1))>>)), <<>>).fields[1].type.name = U("ns.F")
 ASSUME Meaning(Rec("ns.R", <<Field("a", FixedNs("F", "", 1))>>)).fields[1].type.name = U("F")
 ASSUME Meaning(Rec("ns.R", <<Field("a", Fixed(".F", 1))>>)).fields[1].type.name = U("F")
+(* "the most tightly enclosing namespace": a null-namespace record inside namespace x puts its children in the null namespace *)
+ASSUME Meaning(Rec("x.Outer", <<Field("i", RecNs("Inner", "", <<Field("l", Fixed("Leaf", 1))>>))>>)).fields[1].type.fields[1].type.name = U("Leaf")
 
 Prims == {S(p) : p \in PrimNames}
 
@@ -137,6 +139,11 @@ Records ==
     \* null namespace by explicit "" inside a namespaced record (the canonical form cannot express this: grey for idempotence)
     Rec("ns.R", <<Field("a", FixedNs("F", "", 1))>>),
     Rec("ns.R", <<Field("a", Fixed(".F", 1)), Field("b", S(".F"))>>),
+    \* three levels: namespace x, inside it a record in the NULL namespace, inside that un-namespaced names and
+    \* short references: they belong to the most tightly enclosing namespace, i.e. the null one, not to x
+    Rec("x.Outer", <<Field("i", RecNs("Inner", "", <<Field("l", Fixed("Leaf", 1)), Field("r", S("Leaf"))>>))>>),
+    Rec("x.Outer", <<Field("i", Rec(".Inner", <<Field("l", Enum("Leaf", <<"A">>)), Field("m", Arr(S("Leaf")))>>)), Field("o", Fixed("G", 1))>>),
+    RecNs("Outer", "x.y", <<Field("i", RecNs("Inner", "", <<Field("j", Rec("Deep", <<Field("k", Fixed("Leaf", 2))>>))>>))>>),
     \* custom attributes whose names the implementation's whitelist happens to contain
     JObj(<<T("record"), Nm("R"), <<"fields", JArr(<<>>)>>, <<"precision", JInt(5)>>, <<"order", S("zz")>>>>),
     JObj(<<T("enum"), Nm("E"), <<"symbols", JArr(<<S("A")>>)>>, <<"scale", JInt(1)>>, <<"default", S("A")>>>>),
